@@ -341,6 +341,24 @@ def p2_selfloop():
                 [0, 0, 0, 0, 0, 0], stopping=False)
 
 
+def order_sum():
+    """a distribution whose float sum is 1.0 in the written order and 1.0000000000000002 reversed or rotated"""
+    return Game("order_sum", [P1, PR, PR, PR, PR], [[("a", 1), ("b", 2)], [(0.1, 3), (0.34, 4), (0.56, 3)], [(0.11, 3), (0.33, 3), (0.56, 4)],
+                                                   [(1, 3)], [(1, 4)]], [3], [0, SYM, SYM, 0, 0])
+
+
+def zero_dead():
+    """chance states whose dead successors carry probability exactly 0 (e.g. a loose tile that breaks with probability 0)"""
+    return Game("zero_dead", [PR, PR, PR, PR, PR, P2],
+                [[(0.0, 4), (1.0, 1)], [(0.5, 2), (0, 5), (0.5, 3), (0.0, 4)], [(1, 3)], [(1, 3)], [(1, 4)], [("x", 4)]], [3],
+                [1, 2, 1, 0, 0, 5])
+
+
+def zero_alive():
+    """a (dead) chance state whose only live successor is reached with probability 0"""
+    return Game("zero_alive", [PR, PR, PR, PR], [[(0.5, 1), (0.5, 2)], [(0.0, 2), (1.0, 3)], [(1, 2)], [(1, 3)]], [2], [SYM, 1, 0, 0])
+
+
 def slow_chain():
     """KF-1: self-loop of probability 1-1e-7; value iteration stops far from the value"""
     return Game("slow_chain", [PR, PR], [[(1 - 1e-7, 0), (1e-7, 1)], [(1, 1)]], [1], [0, 0])
@@ -565,7 +583,8 @@ def condition(players, tl, probs, reach_strats, prune):
             alive = [(x, t) for x, t in tr if probs[t] != 0]
             if pl == PR and alive and len(alive) != len(tr):
                 mass = sum(x for x, _ in alive)
-                alive = [(x / mass, t) for x, t in alive]
+                if is_sym(mass) or mass != 0:      # (survivors without any mass: nothing to redistribute; the state is dead itself)
+                    alive = [(x / mass, t) for x, t in alive]
             tr = alive
         out.append(tr)
     return out
